@@ -165,7 +165,7 @@ def run(chk, prog):
     err_blocks = []
     for bb, si, s in ci.stmts():
         if s['k'] == 'assign' and s['rv']['k'] == 'agg' and s['rv'].get('adt', '').endswith('result::Result') \
-                and s['rv'].get('var') == 'Err' and 'p' not in s['pl'] and s['pl']['l'] == 0:
+                and s['rv'].get('var') == 'Err' and 'p' not in s['pl'] and (s['pl']['l'] == 0 or s['pl']['l'] in ci.ret_locals):
             err_blocks.append(bb)
     late_err = [b for b in err_blocks if dec_blocks and any(g.dominates(d, b) for d in dec_blocks)]
     if chk.anchor(R_C, 'Err exit in the delivery block of continue_internal', late_err):
